@@ -36,25 +36,26 @@ type Task struct {
 // World is one simulated execution. All fields are protected by mu, which is never held
 // across a blocking operation.
 type World struct {
-	temps   int     // temp files created so far (FsCreateTemp)
-	conns   []*Conn // every in-memory TCP connection end, for process death
-	links   []*Link
-	mu      sync.Mutex
-	Tape    *Tape
-	tasks   map[int64]*Task
-	parked  []*Task
-	poke    chan struct{}
-	never   chan struct{}
-	ext     map[string]int
-	locks   map[*sync.Mutex]*Task
-	last    *Task
-	Steps   int
-	MaxStep int
-	traceH  uint64
-	TraceOn bool
-	Trace   []string
-	start   time.Time
-	stopped bool
+	BufQueue int     // 0: the shipped capacity of the received-reads queue (see BufQueueCap)
+	temps    int     // temp files created so far (FsCreateTemp)
+	conns    []*Conn // every in-memory TCP connection end, for process death
+	links    []*Link
+	mu       sync.Mutex
+	Tape     *Tape
+	tasks    map[int64]*Task
+	parked   []*Task
+	poke     chan struct{}
+	never    chan struct{}
+	ext      map[string]int
+	locks    map[*sync.Mutex]*Task
+	last     *Task
+	Steps    int
+	MaxStep  int
+	traceH   uint64
+	TraceOn  bool
+	Trace    []string
+	start    time.Time
+	stopped  bool
 
 	strategy  int // 0 random, 1 pct, 2 run-to-block
 	pctPoints map[int]bool
